@@ -11,14 +11,16 @@ From Tetl Require Import Lib.Base C17.Ops.
 From Coq Require Import NArith.
 Local Open Scope nat_scope.
 
-(** * Word helpers (include/etl/_bit/*.hpp), word width [w] *)
+(** * Word helpers (include/etl/_bit/*.hpp)
+    [mx] = numeric_limits<UInt>::max() of the word type the helper is instantiated with
+    (a compile-time constant in the code; passed in so that it is evaluated once) *)
 
-(* numeric_limits<WordType>::max() *)
+(* numeric_limits<UInt>::max() for a w-bit type *)
 Definition ones (w : nat) : N := N.ones (N.of_nat w).
-(* static_cast<WordType>(x) *)
-Definition trunc (w : nat) (x : N) : N := N.land x (ones w).
-(* static_cast<WordType>(~x) *)
-Definition wnot (w : nat) (x : N) : N := N.ldiff (ones w) x.
+(* static_cast<UInt>(x) *)
+Definition trunc (mx : N) (x : N) : N := N.land x mx.
+(* static_cast<UInt>(~x) *)
+Definition wnot (mx : N) (x : N) : N := N.ldiff mx x.
 
 (* the TETL_PRECONDITION(pos < digits) of the four helpers: basic_bitset only ever passes
    offset_in_word(pos), which is below the width (Proofs: offset_lt), so it is a separate
@@ -26,25 +28,25 @@ Definition wnot (w : nat) (x : N) : N := N.ldiff (ones w) x.
 Definition bit_pos_ok (w : nat) (pos : N) : bool := N.ltb pos (N.of_nat w).
 
 (* set_bit(word, pos): static_cast<UInt>(word | static_cast<UInt>(UInt(1) << pos)) *)
-Definition set_bit (w : nat) (word pos : N) : N :=
-  trunc w (N.lor word (trunc w (N.shiftl 1 pos))).
+Definition set_bit (mx : N) (word pos : N) : N :=
+  trunc mx (N.lor word (trunc mx (N.shiftl 1 pos))).
 
 (* set_bit(word, pos, value):
    static_cast<UInt>((word & static_cast<UInt>(~(UInt(1) << pos))) | (UInt(value) << pos)) *)
-Definition set_bit_to (w : nat) (word pos : N) (value : bool) : N :=
-  trunc w (N.lor (N.land word (wnot w (N.shiftl 1 pos))) (N.shiftl (N.b2n value) pos)).
+Definition set_bit_to (mx : N) (word pos : N) (value : bool) : N :=
+  trunc mx (N.lor (N.land word (wnot mx (N.shiftl 1 pos))) (N.shiftl (N.b2n value) pos)).
 
 (* reset_bit: static_cast<UInt>(word & static_cast<UInt>(~(UInt(1) << pos))) *)
-Definition reset_bit (w : nat) (word pos : N) : N :=
-  trunc w (N.land word (wnot w (N.shiftl 1 pos))).
+Definition reset_bit (mx : N) (word pos : N) : N :=
+  trunc mx (N.land word (wnot mx (N.shiftl 1 pos))).
 
 (* flip_bit: static_cast<UInt>(word ^ static_cast<UInt>(UInt(1) << pos)) *)
-Definition flip_bit (w : nat) (word pos : N) : N :=
-  trunc w (N.lxor word (trunc w (N.shiftl 1 pos))).
+Definition flip_bit (mx : N) (word pos : N) : N :=
+  trunc mx (N.lxor word (trunc mx (N.shiftl 1 pos))).
 
 (* test_bit: static_cast<UInt>(word & static_cast<UInt>(UInt(1) << pos)) != UInt(0) *)
-Definition test_bit (w : nat) (word pos : N) : bool :=
-  negb (N.eqb (trunc w (N.land word (trunc w (N.shiftl 1 pos)))) 0).
+Definition test_bit (mx : N) (word pos : N) : bool :=
+  negb (N.eqb (trunc mx (N.land word (trunc mx (N.shiftl 1 pos)))) 0).
 
 (* popcount, run-time path: __builtin_popcount{,l,ll} = number of one bits (modelled, not
    verified: compiler builtin) *)
@@ -55,11 +57,11 @@ Definition popcount (x : N) : nat := match x with N0 => 0 | Npos p => pop_pos p 
 (* popcount, constant-evaluation path: detail::popcount_fallback
      for (; val != 0; val &= val - UInt(1)) c++;
    fuel = number of iterations allowed; None = out of fuel *)
-Fixpoint popcount_fallback (w : nat) (fuel : nat) (val : N) : option nat :=
+Fixpoint popcount_fallback (mx : N) (fuel : nat) (val : N) : option nat :=
   if N.eqb val 0 then Some 0
   else match fuel with
        | O => None
-       | S f => option_map S (popcount_fallback w f (trunc w (N.land val (trunc w (val - 1)%N))))
+       | S f => option_map S (popcount_fallback mx f (trunc mx (N.land val (trunc mx (val - 1)%N))))
        end.
 
 (** * basic_bitset<Bits, WordType> *)
@@ -72,9 +74,10 @@ Fixpoint upd (l : list N) (j : nat) (f : N -> N) : list N :=
   | x :: r, S j' => x :: upd r j' f
   end.
 
-Section Bitset.
+(** * Compile-time constants of basic_bitset<Bits, WordType> *)
+Section Consts.
 Variable bits : nat.   (* Bits *)
-Variable w : nat.      (* bits_per_word *)
+Variable w : nat.      (* bits_per_word = numeric_limits<WordType>::digits *)
 
 Definition num_words : nat := (bits + w - 1) / w.
 Definition padding : nat := num_words * w - bits.
@@ -82,15 +85,26 @@ Definition has_padding : bool := negb (padding =? 0).
 
 (* padding_mask: for (i = bits_per_word - padding; i < bits_per_word; ++i) mask = set_bit(mask, i) *)
 Definition padding_mask : N :=
-  fold_left (fun mask i => set_bit w mask (N.of_nat i)) (seq (w - padding) (w - (w - padding))) 0%N.
-Definition padding_mask_inv : N := wnot w padding_mask.
+  fold_left (fun mask i => set_bit (ones w) mask (N.of_nat i)) (seq (w - padding) (w - (w - padding))) 0%N.
+Definition padding_mask_inv : N := wnot (ones w) padding_mask.
+End Consts.
+
+(** * basic_bitset<Bits, WordType> and etl::bitset<Bits>.
+    The three constants  mx = ones (numeric_limits<WordType>::max()),  pmi = padding_mask_inv,
+    m64 = numeric_limits<unsigned long long>::max()  are static constexpr in the code; the
+    functions below take them as arguments (evaluated once per history), and the entry points at
+    the end of the file instantiate them with [ones w], [padding_mask_inv bits w], [ones 64]. *)
+Section Bitset.
+Variable bits : nat.
+Variable w : nat.
+Variable mx pmi m64 : N.
 
 Definition word_index (pos : nat) : nat := pos / w.
 (* static_cast<WordType>(pos & (bits_per_word - size_t(1))); the value is at most w-1 *)
 Definition offset_in_word (pos : nat) : N := N.land (N.of_nat pos) (N.of_nat w - 1)%N.
 
 (* value-initialised array *)
-Definition zero_words : list N := repeat 0%N num_words.
+Definition zero_words : list N := repeat 0%N (num_words bits w).
 
 (* transform_bit(pos, op) *)
 Definition transform_bit (ws : list N) (pos : nat) (op : N -> N -> N) : list N :=
@@ -98,13 +112,13 @@ Definition transform_bit (ws : list N) (pos : nat) (op : N -> N -> N) : list N :
 
 (* the bodies of unchecked_set/reset/flip/test after their TETL_PRECONDITION(pos < size()) *)
 Definition set_raw (ws : list N) (pos : nat) (value : bool) : list N :=
-  transform_bit ws pos (fun word bit => set_bit_to w word bit value).
+  transform_bit ws pos (fun word bit => set_bit_to mx word bit value).
 Definition reset_raw (ws : list N) (pos : nat) : list N :=
-  transform_bit ws pos (fun word bit => reset_bit w word bit).
+  transform_bit ws pos (fun word bit => reset_bit mx word bit).
 Definition flip_raw (ws : list N) (pos : nat) : list N :=
-  transform_bit ws pos (fun word bit => flip_bit w word bit).
+  transform_bit ws pos (fun word bit => flip_bit mx word bit).
 Definition test_raw (ws : list N) (pos : nat) : bool :=
-  test_bit w (nth (word_index pos) ws 0%N) (offset_in_word pos).
+  test_bit mx (nth (word_index pos) ws 0%N) (offset_in_word pos).
 
 (* TETL_PRECONDITION(pos < size()) in front of every positional member of both classes *)
 Definition checked {A} (pos : nat) (a : A) : res A := if pos <? bits then Ok a else Contract.
@@ -116,32 +130,32 @@ Definition test_pos ws pos := checked pos (test_raw ws pos).
 
 (* set(): fill(begin, prev(end), ones); _words[num_words-1] = padding_mask_inv   (or fill all) *)
 Definition set_all (ws : list N) : list N :=
-  let filled := map (fun _ => ones w) ws in
-  if has_padding then upd filled (num_words - 1) (fun _ => padding_mask_inv) else filled.
+  let filled := map (fun _ => mx) ws in
+  if has_padding bits w then upd filled (num_words bits w - 1) (fun _ => pmi) else filled.
 
 (* reset(): fill(begin, end, 0) *)
 Definition reset_all (ws : list N) : list N := map (fun _ => 0%N) ws.
 
 (* flip(): transform(~word); if has_padding: _words[num_words-1] &= padding_mask_inv *)
 Definition flip_all (ws : list N) : list N :=
-  let flipped := map (wnot w) ws in
-  if has_padding
-  then upd flipped (num_words - 1) (fun x => trunc w (N.land x padding_mask_inv))
+  let flipped := map (wnot mx) ws in
+  if has_padding bits w
+  then upd flipped (num_words bits w - 1) (fun x => trunc mx (N.land x pmi))
   else flipped.
 
 (* operator&= |= ^= : transform(lhs, rhs -> static_cast<WordType>(lhs OP rhs)) *)
 Definition zip_words (f : N -> N -> N) (a b : list N) : list N :=
-  map (fun p => trunc w (f (fst p) (snd p))) (combine a b).
+  map (fun p => trunc mx (f (fst p) (snd p))) (combine a b).
 Definition and_words := zip_words N.land.
 Definition or_words := zip_words N.lor.
 Definition xor_words := zip_words N.lxor.
 
 (* all() *)
 Definition all_m (ws : list N) : bool :=
-  if has_padding
-  then forallb (fun x => N.eqb x (ones w)) (firstn (num_words - 1) ws)
-       && N.eqb (nth (num_words - 1) ws 0%N) padding_mask_inv
-  else forallb (fun x => N.eqb x (ones w)) ws.
+  if has_padding bits w
+  then forallb (fun x => N.eqb x mx) (firstn (num_words bits w - 1) ws)
+       && N.eqb (nth (num_words bits w - 1) ws 0%N) pmi
+  else forallb (fun x => N.eqb x mx) ws.
 
 (* none(), any() *)
 Definition none_m (ws : list N) : bool := forallb (fun x => N.eqb x 0) ws.
@@ -162,14 +176,14 @@ Fixpoint words_eqb (a b : list N) : bool :=
    m = min(digits(ull), size()); for i < m: unchecked_set(i, test_bit(val, (ull)i))
    (i < m <= size(): the precondition of unchecked_set holds) *)
 Definition of_ullong (val : N) : list N :=
-  fold_left (fun ws i => set_raw ws i (test_bit 64 val (N.of_nat i))) (seq 0 (Nat.min 64 bits)) zero_words.
+  fold_left (fun ws i => set_raw ws i (test_bit m64 val (N.of_nat i))) (seq 0 (Nat.min 64 bits)) zero_words.
 
-(** * etl::bitset<Bits> on top of it (w = 64 there; nothing below depends on that) *)
+(** etl::bitset<Bits> on top of it (w = 64 there; nothing below depends on that) *)
 
 (* to_unsigned_type<UInt>() with digits(UInt) = 64 (unsigned long and unsigned long long, LP64):
    idx = min(size(), digits); for i < idx: if (test(i)) result = set_bit(result, i) *)
 Definition to_ullong_m (ws : list N) : N :=
-  fold_left (fun result i => if test_raw ws i then set_bit 64 result (N.of_nat i) else result)
+  fold_left (fun result i => if test_raw ws i then set_bit m64 result (N.of_nat i) else result)
             (seq 0 (Nat.min bits 64)) 0%N.
 
 (* to_string<Capacity>(zero, one):
@@ -196,14 +210,14 @@ Definition of_string (str : list N) (pos : nat) (n : N) (zero one : N) : res (li
                      if N.eqb ch zero then set_raw ws1 i false else ws1)
                   (seq 0 m) (of_ullong 0)).
 
-(** * Histories: a two-register machine (current set, other set) *)
+(** Histories: a two-register machine (current set, other set); alphabet in Ops.v *)
 
 Definition state : Type := list N * list N.
 
 Definition init_state : state := (zero_words, zero_words).
 
 (* result of a step: new state and the answers of the queries the step made *)
-Definition step_m (st : state) (o : op) : res (state * list bool) :=
+Definition step_k (st : state) (o : op) : res (state * list bool) :=
   let '(cur, oth) := st in
   let upd_cur (r : res (list N)) := rbind r (fun c => Ok ((c, oth), [])) in
   match o with
@@ -215,12 +229,12 @@ Definition step_m (st : state) (o : op) : res (state * list bool) :=
   | OReset pos => upd_cur (reset_pos cur pos)
   | OFlip pos => upd_cur (flip_pos cur pos)
   (* operator[](pos) -> reference{_words[word_index(pos)], offset_in_word(pos)};
-     reference::operator=(bool x): *_word = set_bit( *_word, _offset, x) *)
+     reference::operator=(bool x): word = set_bit(word, _offset, x) *)
   | ORefSet pos v => upd_cur (set_pos cur pos v)
-  (* reference::operator=(reference const& x): set_bit( *_word, _offset, static_cast<bool>(x)) *)
+  (* reference::operator=(reference const& x): set_bit(word, _offset, static_cast<bool>(x)) *)
   | ORefCopy pos src =>
       rbind (test_pos oth src) (fun b => upd_cur (set_pos cur pos b))
-  (* reference::flip(): *_word = flip_bit( *_word, _offset) *)
+  (* reference::flip(): word = flip_bit(word, _offset) *)
   | ORefFlip pos => upd_cur (flip_pos cur pos)
   | OAnd | OAndF => Ok ((and_words cur oth, oth), [])
   | OOr | OOrF => Ok ((or_words cur oth, oth), [])
@@ -240,7 +254,7 @@ Record obs := { o_string : list N; o_count : nat; o_all : bool; o_any : bool; o_
 Definition chr0 : N := 48%N.
 Definition chr1 : N := 49%N.
 
-Definition observe_m (st : state) : obs :=
+Definition observe_k (st : state) : obs :=
   let '(cur, oth) := st in
   {| o_string := to_string_m cur chr0 chr1; o_count := count_m cur; o_all := all_m cur;
      o_any := any_m cur; o_none := none_m cur;
@@ -248,14 +262,32 @@ Definition observe_m (st : state) : obs :=
      o_eq := words_eqb cur oth |}.
 
 (* run a history; a step whose precondition fails is reported (None) and leaves the state alone *)
-Fixpoint run_m (st : state) (ops : list op) : list (option (obs * list bool)) :=
+Fixpoint run_k (st : state) (ops : list op) : list (option (obs * list bool)) :=
   match ops with
   | [] => []
   | o :: rest =>
-      match step_m st o with
-      | Ok (st', q) => Some (observe_m st', q) :: run_m st' rest
-      | _ => None :: run_m st rest
+      match step_k st o with
+      | Ok (st', q) => Some (observe_k st', q) :: run_k st' rest
+      | _ => None :: run_k st rest
+      end
+  end.
+
+(* the same history, raw storage of the current register after every step *)
+Fixpoint run_words_k (st : state) (ops : list op) : list (option (list N)) :=
+  match ops with
+  | [] => []
+  | o :: rest =>
+      match step_k st o with
+      | Ok (st', q) => Some (fst st') :: run_words_k st' rest
+      | _ => None :: run_words_k st rest
       end
   end.
 
 End Bitset.
+
+(** * Entry points: the constants instantiated as the code defines them *)
+Definition step_m (bits w : nat) := step_k bits w (ones w) (padding_mask_inv bits w) (ones 64).
+Definition observe_m (bits w : nat) := observe_k bits w (ones w) (padding_mask_inv bits w) (ones 64).
+Definition run_m (bits w : nat) := run_k bits w (ones w) (padding_mask_inv bits w) (ones 64).
+Definition run_words_m (bits w : nat) := run_words_k bits w (ones w) (padding_mask_inv bits w) (ones 64).
+Definition init_m (bits w : nat) : state := init_state bits w.
